@@ -12,6 +12,14 @@ CLAIMED = {
    technique="deterministic simulation: circl sender/receiver nodes against an RFC 9180 reference-model peer; faults = receiver misconfiguration, corrupted enc in flight, entropy-device failure, object reuse across setups",
    text="Seeded search over suite x mode x keys x info/psk/psk_id x traffic; every run compares enc, key, base nonce, exporter secret, every ciphertext and every export with a reference model written from RFC 9180 (validated at start-up against the RFC's base-mode vectors), lets each side open what the other seals, and injects one fault: a receiver differing in skR/info/psk/psk_id/mode/pkS must fail setup or fail every open and export different secrets; RFC 9180 5.1 PSK rule cases must be refused; an entropy error must not yield a context.",
    note="Trusts crypto/ecdh, x/crypto hkdf/chacha20poly1305, stdlib AES-GCM; model's PSK/auth paths have no published vector in this sandbox (base mode has); inner KEM of the two hybrid KEMs is circl's own."),
+ "C10": dict(engine="codecsim", level="fault_enumeration", ref="DESIGN.md §3 C10",
+   technique="deterministic fault injection on encodings: encode -> faulty medium (tear, extend, bit flip, length-field rewrite, splice) -> decode, with enumeration of fault families per entry point and a recover/watchdog oracle",
+   text="Every registered decoding / verifying / decapsulating / opening entry point (list in the evidence file) receives valid encodings corrupted by an enumerated family of storage/transport faults: every truncation length, nil/empty/1 byte, sizes +-1/+-2/+-16, appended bytes, all-zero/all-0xFF, every 16/32-bit length-field rewrite at every offset, format-aware faults, single-bit flips (all when affordable), plus seeded random batches and splices. Oracle: no panic, no hang (watchdog), library-made encodings are accepted. Enumerates faults of sampled encodings, not all byte strings.",
+   note="Documented fixed-length panics are avoided by driving the error-returning scheme-level API; entry points that cannot report failure are out of scope; uncovered syntactic candidates are listed in the evidence."),
+ "C09": dict(engine="codecsim", level="fault_enumeration", ref="DESIGN.md §3 C09",
+   technique="deterministic fault injection on encodings with a canonical-form and independent group-membership oracle; all single-bit flips and format-aware faults enumerated per sampled valid encoding",
+   text="For each decoder of group elements / keys named in the property: every single-bit flip and every format-aware fault (coordinate+p, x=p-1/p/p+1, flag bits, infinity with payload, unused bits, ML-KEM coefficients >= q) of sampled valid encodings (incl. identities reached by arithmetic) is decoded; acceptance requires byte-identical re-serialisation in the same format and an independent membership test ((r-1)P+P=O for BLS12-381, crypto/elliptic for NIST curves, on-curve for Goldilocks/FourQ, order check after curve4q cofactor clearing); library-made encodings must be accepted.",
+   note="Decoders whose tests pin prefix parsing (bls12381 SetBytes) are judged on the parsed prefix; BLS12-381 membership uses the library's own group law (C13 assumed)."),
 }
 
 NA = {
@@ -53,6 +61,7 @@ m = {
    "add_only": True,
  },
  "engines": [
+   {"name": "codecsim", "path": "sim/codec", "serves_properties": ["C09", "C10"], "kind_free_text": "encode -> fault-injecting medium -> decode, enumerated fault families per entry point"},
    {"name": "netsim", "path": "sim/core + sim/props/*", "serves_properties": sorted(p for p in CLAIMED if CLAIMED[p]["engine"].startswith("netsim")), "kind_free_text": "seeded protocol simulation: nodes are real circl calls, the simulator owns transport, disk, entropy and crashes"},
  ],
  "checks": checks,
